@@ -94,7 +94,9 @@ class C03Gen(langgen.Gen):
                  "overwrite", "shadow_block", "loop_ctl_dead", "if_else_return", "unused_cycle",
                  "hoisted_in_dead", "never_read", "never_read", "overwrite", "cond_capture_write", "many_locals",
                  "self_update_via_callee", "self_update_via_callee", "self_update_via_callee", "self_update_direct",
-                 "self_update_direct", "hoisted_after_ctl", "ds_flow", "ds_flow", "ds_flow"]
+                 "self_update_direct", "hoisted_after_ctl", "ds_flow", "ds_flow", "ds_flow", "callee_mutates_array",
+                 "scc_group", "scc_group", "scc_group", "scc_group", "call_chain", "loop_branch_jump", "loop_branch_jump",
+                 "loop_branch_jump", "loop_branch_jump"]
 
     def __init__(self, rng, opts=None):
         super().__init__(rng, opts)
@@ -572,6 +574,212 @@ class C03Gen(langgen.Gen):
         lines += [pad + "  " + h for h in helper] + ["%send" % pad, "%sshout(%s())" % (pad, f)]
         return lines
 
+    # ---- a strongly connected group of 3-6 functions (ring + spur edges, any declaration order) in which
+    #      exactly ONE member reads or writes a captured variable; a store to it right before the call
+    #      into the group (the summaries' transitive capture sets must reach every member)
+    def t_scc_group(self, ind, in_loop_ok=True):
+        if not self.can_fn():
+            return None
+        r, pad = self.r, "  " * ind
+        lines = []
+        ty = r.choice([STR, STR, NUM])
+        x = self.newvar(ty, pad, lines).name
+        want_gap = r.random() < 0.7
+        for attempt in range(60):
+            k = r.randint(4, 6) if want_gap else r.randint(3, 6)
+            ring = r.randint(3, k)
+            edges = {i: [] for i in range(k)}
+            for i in range(ring):
+                edges[i].append((i + 1) % ring)
+            for j in range(ring, k):                       # spur nodes hang off an earlier node ...
+                edges[r.randrange(j)].append(j)
+                if r.random() < 0.8:                       # ... and mostly call back into the group
+                    edges[j].append(r.randrange(j))
+            for _ in range(r.randint(0, 2)):               # extra chords
+                a, b = r.randrange(k), r.randrange(k)
+                if b not in edges[a] and len(edges[a]) < 3:
+                    edges[a].append(b)
+            for i in range(k):
+                r.shuffle(edges[i])
+            special = r.randrange(k)
+            order = list(range(k))
+            mode = r.randrange(4)
+            if mode == 1:
+                order.reverse()
+            elif mode >= 2:
+                r.shuffle(order)
+            entry = r.randrange(ring)
+            if not want_gap:
+                break
+            # prefer arrangements in which a fixpoint that lets only the last edge of a round decide about
+            # another round would leave the entry function without the special member's capture access
+            full = _summary_rounds(k, edges, order, special, True)
+            lazy = _summary_rounds(k, edges, order, special, False)
+            gap = [n for n in range(ring) if n in full and n not in lazy]
+            if gap:
+                entry = r.choice(gap)
+                break
+        names = [self.fresh("f") for _ in range(k)]
+        write = r.random() < 0.35
+        # optional guards on single call edges; an edge guarded by a threshold the counter never passes is
+        # static only (it still shapes the summaries, like `report -> turn` in the seeded demonstration)
+        guard = {}
+        for i in range(k):
+            if len(edges[i]) > 1 and r.random() < 0.3:
+                guard[(i, r.choice(edges[i]))] = r.choice([0, 100, 100])
+
+        def distances(open_edge):
+            dist = {entry: 0}
+            todo = [entry]
+            while todo:
+                a = todo.pop(0)
+                for b in edges[a]:
+                    if open_edge(a, b) and b not in dist:
+                        dist[b] = dist[a] + 1
+                        todo.append(b)
+            return dist
+        dist = distances(lambda a, b: guard.get((a, b), 0) == 0)
+        if special not in dist:                  # keep the special member reachable at run time
+            guard = {}
+            dist = distances(lambda a, b: True)
+        depth = dist.get(special, 1) + r.choice([1, 1, 2])
+        defs = []
+        for i in order:
+            body = ["if to say (n small pass 1) start return 0 end"]
+            acts = []
+            for j in edges[i]:
+                c = "%s(n minus 1)" % names[j]
+                if (i, j) in guard:
+                    c = "if to say (n pass %d) start %s end" % (guard[(i, j)], c)
+                acts.append(c)
+            if i == special:
+                acc = ("%s get %s" % (x, self.lit(ty))) if write else "shout(%s)" % r.choice(['"{%s} {n}"' % x, x, "[%s, n]" % x])
+                acts.insert(r.randrange(len(acts) + 1), acc)
+            body += acts + ["return 0"]
+            defs.append(["do %s(n) start" % names[i]] + ["  " + b for b in body] + ["end"])
+        pre = defs if r.random() < 0.6 else defs[:len(defs) // 2]
+        post = [] if pre is defs else defs[len(defs) // 2:]
+        for d in pre:
+            lines += [pad + l for l in d]
+        lines.append("%s%s get %s" % (pad, x, self.lit(ty)))
+        call = "%s(%d)" % (names[entry], depth)
+        form = r.randrange(4)
+        if form == 0:
+            lines.append(pad + call)
+        elif form == 1:
+            lines += ["%sif to say (%s) start" % (pad, r.choice(["true", "true", "false"])), "%s  %s" % (pad, call), "%send" % pad]
+        elif form == 2:
+            lines += ["%sstart" % pad, "%s  shout(%s)" % (pad, call), "%send" % pad]
+        else:
+            lines.append("%smake %s get %s" % (pad, self.fresh("u"), call))
+        for d in post:
+            lines += [pad + l for l in d]
+        if write or r.random() < 0.25:
+            lines.append("%sshout(%s)" % (pad, x))
+        elif r.random() < 0.5:
+            lines += ["%s%s get %s" % (pad, x, self.lit(ty)), "%sshout(%s)" % (pad, x)]
+        if write and r.random() < 0.5:
+            lines += ["%s%s get %s" % (pad, x, self.lit(ty)), "%s%s(1)" % (pad, names[r.randrange(k)]), "%sshout(%s)" % (pad, x)]
+        if in_loop_ok and self.loop_depth < 1 and r.random() < 0.2:
+            # the whole family inside a loop body (functions defined in the loop)
+            i = self.fresh("v")
+            inner = ["  " + l for l in lines[1:]]       # the declaration of x stays outside the loop
+            lines = [lines[0], "%smake %s get 0" % (pad, i), "%sjasi (%s small pass 2) start" % (pad, i), "%s  %s get %s add 1" % (pad, i, i)] + inner + ["%send" % pad]
+            self.declare(i, NUM)
+        return lines
+
+    # ---- a chain of 3-5 non-recursive calls; only the last (or a middle) one touches the captured variable
+    def t_call_chain(self, ind):
+        if not self.can_fn():
+            return None
+        r, pad = self.r, "  " * ind
+        lines = []
+        ty = r.choice([STR, NUM])
+        x = self.newvar(ty, pad, lines).name
+        k = r.randint(3, 5)
+        names = [self.fresh("f") for _ in range(k)]
+        special = r.choice([k - 1, k - 1, r.randrange(k)])
+        write = r.random() < 0.3
+        order = list(range(k))
+        if r.random() < 0.5:
+            order.reverse()
+        elif r.random() < 0.5:
+            r.shuffle(order)
+        for i in order:
+            body = []
+            if i == special:
+                body.append(("%s get %s" % (x, self.lit(ty))) if write else "shout(%s)" % r.choice(['"<{%s}>"' % x, x]))
+            if i + 1 < k:
+                body.insert(r.randrange(len(body) + 1), "%s()" % names[i + 1])
+            lines += ["%sdo %s() start" % (pad, names[i])] + ["%s  %s" % (pad, b) for b in body] + ["%s  return 0" % pad, "%send" % pad]
+        lines += ["%s%s get %s" % (pad, x, self.lit(ty)),
+                  r.choice(["%s%s()", "%smake u0 get %s()", "%sshout(%s())"]).replace("u0", self.fresh("u")) % (pad, names[0])]
+        if write or r.random() < 0.3:
+            lines.append("%sshout(%s)" % (pad, x))
+        elif r.random() < 0.5:
+            lines += ["%s%s get %s" % (pad, x, self.lit(ty)), "%sshout(%s)" % (pad, x)]
+        return lines
+
+    # ---- loops whose body jumps (`next` / `comot`) out of a THEN- or ELSE-branch (also nested) right after a
+    #      store that is read at the top of the next iteration, after the loop, or later in the iteration
+    def t_loop_branch_jump(self, ind):
+        if self.loop_depth >= 2:
+            return None
+        r, pad = self.r, "  " * ind
+        lines = []
+        ty = r.choice([STR, STR, NUM])
+        v = self.newvar(ty, pad, lines).name
+        i = self.fresh("v")
+        n = r.randint(2, 4)
+        lines += ["%smake %s get 0" % (pad, i), "%sjasi (%s small pass %d) start" % (pad, i, n), "%s  %s get %s add 1" % (pad, i, i)]
+        self.declare(i, NUM)
+        body = []
+        rd_fn = None
+        top = r.randrange(4)
+        if top == 0:
+            body.append("shout(%s)" % v)
+        elif top == 1:
+            body.append('shout("%s {%s}")' % (r.choice(["top", "it"]), v))
+        elif top == 2 and self.can_fn():
+            rd_fn = self.fresh("f")
+            body += ["do %s() start" % rd_fn, "  return %s" % r.choice([v, '"{%s}"' % v, "[%s]" % v]), "end", "shout(%s())" % rd_fn]
+        jump = r.choice(["next", "next", "comot"])
+        store = "%s get %s" % (v, self.lit(ty))
+        cond = r.choice(["%s mod 2 na 0" % i, "%s pass 1" % i, "%s small pass 2" % i, "true", "false", "%s na %d" % (i, n)])
+        jumper = [store, jump]
+        shape = r.randrange(6)
+        if shape == 1:
+            jumper = ["if to say (%s) start" % r.choice(["true", "%s pass 0" % i]), "  " + store, "  " + jump, "end"]
+        elif shape == 2:
+            jumper = ["start", "  " + store, "  " + jump, "end"]
+        elif shape == 3:
+            jumper = [store, "if to say (%s) start %s end" % (r.choice(["true", "%s pass 1" % i]), jump)]
+        elif shape == 4:
+            jumper = ["if to say (false) start shout(%s) end" % self.lit(NUM), "if not so start", "  " + store, "  " + jump, "end"]
+        other = r.choice([["shout(%s)" % v], ['shout("other {%s}")' % v], ["%s get %s" % (v, self.lit(ty))], ["shout(%s)" % self.lit(NUM)]])
+        in_else = r.random() < 0.65
+        th, el = (other, jumper) if in_else else (jumper, other)
+        body.append("if to say (%s) start" % cond)
+        body += ["  " + l for l in th]
+        body.append("end")
+        if in_else or r.random() < 0.6:
+            body.append("if not so start")
+            body += ["  " + l for l in el]
+            body.append("end")
+        tail = r.randrange(4)
+        if tail == 0:
+            body.append("shout(%s)" % v)
+        elif tail == 1:
+            body.append("%s get %s" % (v, self.lit(ty)))
+        elif tail == 2 and rd_fn:
+            body.append("shout(%s())" % rd_fn)
+        if r.random() < 0.25:
+            body = ["start"] + ["  " + b for b in body] + ["end"]
+        lines += ["%s  %s" % (pad, b) for b in body] + ["%send" % pad]
+        if r.random() < 0.7:
+            lines.append("%sshout(%s)" % (pad, v))
+        return lines
+
     # ---- more than 64 locals of a nested function interleaved with the enclosing function's locals
     # ---- round 2: stores that are dead only flow-sensitively: across a call that does not read them, around a
     #      recursive call, on every path of a loop with next/comot, at a scope exit, inside a callee with captures
@@ -675,6 +883,60 @@ class C03Gen(langgen.Gen):
         self.declare(a, NUM)
         self.declare(b, NUM)
         return lines
+
+
+def _summary_rounds(k, edges, order, special, sticky):
+    """transitive-capture propagation of src/analysis/summary.rs over the call graph `edges` (function ids =
+    declaration order `order`), with the sticky `changed` flag or with a flag that only the last edge of a
+    round decides.  Used only to BIAS the generator towards arrangements in which the two schedules differ
+    (groups whose last-numbered member converges before an earlier one); -> set of nodes that know `special`."""
+    fid = dict((node, i) for i, node in enumerate(order))
+    callees = dict((i, set(edges[i])) for i in range(k))
+    knows = dict((i, i == special) for i in range(k))
+    # strongly connected components by mutual reachability (k <= 6)
+    reach = dict((i, set(edges[i])) for i in range(k))
+    for _ in range(k):
+        for i in range(k):
+            for j in list(reach[i]):
+                reach[i] |= reach[j]
+    comp = {}
+    for i in range(k):
+        comp[i] = frozenset([i] + [j for j in reach[i] if i in reach[j]])
+    comps = []
+    for c in set(comp.values()):
+        comps.append(c)
+    done = set()
+    pending = list(comps)
+    while pending:
+        for c in pending:
+            outs = set(j for i in c for j in reach[i]) - c
+            if outs <= done:
+                break
+        pending.remove(c)
+        members = sorted(c, key=lambda n: fid[n])
+        changed = True
+        rounds = 0
+        while changed and rounds < 50:
+            rounds += 1
+            changed = False
+            for f in members:
+                for g in edges[f]:
+                    if g == f:
+                        continue
+                    grew = False
+                    new = callees[g] - callees[f]
+                    if new:
+                        callees[f] |= new
+                        grew = True
+                    if knows[g] and not knows[f]:
+                        knows[f] = True
+                        grew = True
+                    if sticky:
+                        changed = changed or grew
+                    else:
+                        changed = grew
+        done |= c
+    return set(i for i in range(k) if knows[i])
 
 
 _STR_RE = re.compile(r'"(?:[^"\\]|\\.)*"')
@@ -1199,10 +1461,12 @@ def shrink(env, f):
     if len(lines) > 60:
         return f
     n = [0]
+    import time
+    t0 = time.time()
 
     def pred(cand):
         n[0] += 1
-        if n[0] > 150:
+        if n[0] > 150 or time.time() - t0 > 25:       # shrinking is a convenience: bounded in steps and time
             return False
         o = new_out()
         # removing a line can make a loop endless: a candidate that does not finish quickly is rejected
